@@ -435,8 +435,8 @@ func raceSite(blk string) string {
 			if strings.HasPrefix(file, "/usr/lib/go") || strings.Contains(file, "/go/pkg/mod/golang.org") {
 				continue
 			}
-			site := strings.TrimPrefix(file, "/repo/") + ":" + m[2]
-			if strings.HasPrefix(file, "/repo/") {
+			site := strings.TrimPrefix(file, core.RepoDir+"/") + ":" + m[2]
+			if strings.HasPrefix(file, core.RepoDir+"/") {
 				relevant = true
 			} else if strings.Contains(fn, "TouchGroupMemory") {
 				relevant = true
